@@ -908,6 +908,33 @@ def r5_5(ctx):
     cm = ctx.repo.mod("control")
     s = cm.fn("strip_control_codes")
     ctx.check("text.translate(_translate_table)" in norm(s.node), s.fq, "translate", s.where, "strip_control_codes is str.translate with the strip table", "strip_control_codes is no longer a translate over the strip table")
+    # every return is the translation - or the argument itself on a path where the absence of EVERY stripped character is a fact
+    try:
+        codes = [int(e.value) for e in cm.global_assign("STRIP_CONTROL_CODES").elts]
+    except Exception:
+        raise AnalysisError("control.STRIP_CONTROL_CODES is not a literal list of ints")
+    gs = cfgmod.build(s.node)
+    par = s.params[0]
+    for nd in gs.stmt_nodes():
+        if nd.kind != "stmt" or not isinstance(nd.stmt, ast.Return) or nd.stmt.value is None:
+            continue
+        rv = nd.stmt.value
+        if isinstance(rv, ast.Call) and isinstance(rv.func, ast.Attribute) and rv.func.attr == "translate":
+            continue
+        where_ = f"{cm.relpath}:{nd.lineno}"
+        if norm(rv) != par:
+            raise AnalysisError(f"strip_control_codes: `{short(nd.stmt)}` is neither the translation nor the argument")
+        absent = set()
+        for t0, v0 in gs.branch_facts(nd.id):
+            conj = [t0] if not (isinstance(t0, ast.BoolOp) and isinstance(t0.op, ast.And) and v0) else list(t0.values)
+            for t1 in conj:
+                if v0 and isinstance(t1, ast.Compare) and len(t1.ops) == 1 and isinstance(t1.ops[0], ast.NotIn) and isinstance(t1.left, ast.Constant) and isinstance(t1.left.value, str) and len(t1.left.value) == 1 and norm(t1.comparators[0]) == par:
+                    absent.add(ord(t1.left.value))
+                if (not v0) and isinstance(t1, ast.Compare) and len(t1.ops) == 1 and isinstance(t1.ops[0], ast.In) and isinstance(t1.left, ast.Constant) and isinstance(t1.left.value, str) and len(t1.left.value) == 1 and norm(t1.comparators[0]) == par:
+                    absent.add(ord(t1.left.value))
+        missing = [c_ for c_ in codes if c_ not in absent]
+        ctx.check(not missing, s.fq, short(nd.stmt), where_, "the argument is returned untouched only when it contains none of the stripped characters",
+                  f"`{short(nd.stmt)}` returns the argument unstripped on a path that only excludes {sorted(chr(a) for a in absent)!r}: {[hex(c_) for c_ in missing]} (vertical tab / form feed ...) stay in the text, so Text('a\\x0bb').plain keeps a character the property says is stripped")
     tbl = cm.global_assign("_CONTROL_TRANSLATE")
     tbl_ok = norm(tbl) in ("{_codepoint: None for _codepoint in STRIP_CONTROL_CODES}", "str.maketrans('', '', ''.join(map(chr, STRIP_CONTROL_CODES)))", "dict.fromkeys(STRIP_CONTROL_CODES)", "dict.fromkeys(STRIP_CONTROL_CODES, None)")
     if not tbl_ok and isinstance(tbl, ast.DictComp) and len(tbl.generators) == 1 and norm(tbl.generators[0].iter) == "STRIP_CONTROL_CODES" and not tbl.generators[0].ifs and norm(tbl.key) == norm(tbl.generators[0].target) and isinstance(tbl.value, ast.Constant) and tbl.value.value is None:
@@ -1219,4 +1246,31 @@ def r5_11(ctx):
     ctx.floor(n, 4, "stores to another Text's plain")
 
 
-RULES = [r5_0, r5_1, r5_2, r5_3, r5_4, r5_5, r5_6, r5_7, r5_8, r5_9, r5_10, r5_11]
+def r5_12(ctx):
+    ctx.rule("R5.12", "stylize keeps spans inside the text: the Span stored by Text.stylize ends at min(<length>, end) (or the store is dominated by a fact end <= length) - a span that overhangs the end silently covers every character appended later")
+    from ..astutil import inline as _inl, single_defs as _sdf
+    f = ctx.repo.fn(f"{TEXT_MOD}:Text.stylize")
+    m = f.module
+    sd = _sdf(f.node)
+    spans = [c for c in walk_local(f.node) if isinstance(c, ast.Call) and norm(c.func) in ("Span", "_Span") and len(c.args) == 3]
+    ctx.floor(len(spans), 1, "Span constructions in stylize")
+    g = cfgmod.build(f.node)
+    lens = ("len(self)", "self._length", "len(self.plain)")
+    for c in spans:
+        e = _inl(c.args[1], sd)
+        where = f"{m.relpath}:{c.lineno}"
+        ok = isinstance(e, ast.Call) and norm(e.func) == "min" and len(e.args) == 2 and any(norm(a) in lens for a in e.args)
+        if not ok:
+            st = c
+            while not isinstance(st, ast.stmt):
+                st = m.parent_of[st]
+            facts = set()
+            for nid in g.nodes_of(st):
+                facts |= {(norm(_inl(t0, sd)), v0) for t0, v0 in g.branch_facts(nid)}
+            en = norm(e)
+            ok = any((f"{en} <= {l}", True) in facts or (f"{en} > {l}", False) in facts or (f"{l} >= {en}", True) in facts or (f"{l} < {en}", False) in facts for l in lens)
+        ctx.check(ok, f.fq, short(c), where, "the stored span ends inside the text",
+                  f"`{short(c)}` stores the end offset as given: stylize('red', 0, 10) on a 3-character text leaves a span (0, 10); characters appended afterwards fall inside it and turn red")
+
+
+RULES = [r5_0, r5_1, r5_2, r5_3, r5_4, r5_5, r5_6, r5_7, r5_8, r5_9, r5_10, r5_11, r5_12]
